@@ -46,13 +46,17 @@ def _series_engines():
 
 def spaces(tier):
     q = tier == "quick"
-    uni = [("AC", 7), ("ACD", 5), ("ACDE", 4)] if q else [("AC", 10), ("ACD", 7), ("ACDE", 5)]
+    uni = [("AC", 7), ("ACD", 5), ("ACDE", 4)] if q else [("AC", 9), ("ACD", 6), ("ACDE", 5)]
 
     def gen_allpairs():
         for alpha, L in uni:
             for k in (1, 2, 3, 4):
                 for order in ("fwd", "rev"):
                     yield ("allpairs", alpha, L, k, order)
+        if not q:
+            for alpha, L in (("AC", 10), ("ACD", 7)):       # the largest universes: radii 1..2 only (at k>=3 nearly every pair is a neighbour)
+                for k in (1, 2):
+                    yield ("allpairs", alpha, L, k, "fwd")
         for alpha, L in [("AC", 7), ("ACD", 5), ("ACDE", 4)]:
             yield ("allpairs", alpha, L, L + 1, "fwd")
 
@@ -87,7 +91,7 @@ def spaces(tier):
                 yield ("family", si, 2, "ACSG", 3)
 
     return [
-        Space("all-pairs-of-universe", gen_allpairs, "whole universe U(alphabet,L) as one list, fwd and reversed order: %s x k in 1..4, k=L+1" % uni, per_case=True),
+        Space("all-pairs-of-universe", gen_allpairs, "whole universe U(alphabet,L) as one list, fwd and reversed order: %s x k in 1..4, k=L+1; thorough also U(AC,10), U(ACD,7) x k in 1..2" % uni, per_case=True),
         Space("size-boundary-and-non-ascii", gen_size, "collections of 257, 1025 and 65560 strings whose positions next to 0, 256, 1024, 65536 and the end hold a clonal family (fillers mutually >= 2 edits apart); universes over multi-byte alphabets {A, alpha, e-acute} and {alpha, CJK}", per_case=True),
         Space("all-lists", gen_lists, "all ordered lists with repetition: Lists(U(AC,2),3) [quick] / Lists(U(AC,2),4)+Lists(U(AC,3),3) [thorough] x k in 1..3"),
         Space("same-container-new-contents", gen_reuse, "one list / ndarray object searched, overwritten in place with every other list of the same length over U(AC,2) (lengths 2..3) and searched again: the second answer must be that of the new contents", shards=32),
